@@ -431,7 +431,7 @@ class Gen:
                 v = num(r.choice([1, 1, 1, 2] if intonly else [1, Fraction(1, 2), 1, Fraction(3, 2)]))
         c = TRUE_E
         if o["conditional"] and r.random() < 0.3:
-            c = self.bool_expr(1, params, vs)
+            c = self.bool_expr(r.choice([1, 1, 1, 2]), params, vs)
         return {"kind": kind, "f": {"name": target["name"], "args": target["args"]}, "v": v, "c": c, "forall": fa}
 
     def drop_static_conflicts(self, effects):
